@@ -90,6 +90,27 @@ Fixpoint s_run (G : group) (ops : list op) : list (option (list code)) :=
   | o :: r => let '(G', out) := s_step G o in out :: s_run G' r
   end.
 
+(* CONTRAST (not the code): the variant in which the cache keeps the FORMATTED names, i.e. names with the namespace
+   that was current when the cache was filled -- the shape of a history bug (seeded change C13/4).  The history
+   theorem is refuted for it (Proofs/NamespaceHistProofs.v), which shows the theorem is not true by construction
+   of the state space: it depends on WHAT is cached. *)
+Definition h_names_stale (h : hsch) (a : attr) : list str :=
+  match h_cache h a with Some l => l | None => map (app (h_ns h)) (s_twa (h_sch h) a) end.
+Definition h_twa_stale (G : hgroup) (a : attr) : list str := flat_map (fun h => h_names_stale h a) G.
+Definition h_cfg_stale (G : hgroup) : cfg :=
+  mkCfg (group_find_tag_entry (strip G)) (h_twa_stale G) (schema83_group (strip G)).
+Definition fill_stale (h : hsch) : hsch := mkH (h_ns h) (h_sch h) (fun a => Some (h_names_stale h a)).
+Definition h_step_stale (G : hgroup) (o : op) : hgroup * option (list code) :=
+  match o with
+  | OpPrefix i ns => (upd_nth i (h_reprefix ns) G, None)
+  | OpValidate a => (if fill G a then map fill_stale G else G, Some (verdict (h_cfg_stale G) a))
+  end.
+Fixpoint h_run_stale (G : hgroup) (ops : list op) : list (option (list code)) :=
+  match ops with
+  | [] => []
+  | o :: r => let '(G', out) := h_step_stale G o in out :: h_run_stale G' r
+  end.
+
 (* ------------------------------------------------------------------ (a) objects built under other schemas *)
 
 (* HedTag.__str__: the short form when the tag is identified, its own text otherwise *)
@@ -109,7 +130,8 @@ Definition reidentify (c : cfg) (t : str) (r : rtag) : rtag * list code :=
         | _, _ => Some (ext_value r)
         end), iss).
 
-(* fixed5 = true: the tags are re-identified before the tag character check (fix-F5) *)
+(* fixed5 = true: the tags are re-identified before the tag character check -- the code since fix commit 02f8597
+   (C13-F5); false = the behaviour before that commit *)
 Variable fixed5 : bool.
 
 (* HedValidator(cB).validate(HedString(a, cA)) *)
@@ -131,3 +153,18 @@ Definition verdict_cross (cA cB : cfg) (a : ann str) : list code :=
      ++ check_unique foldc (c_twa cB Unique) (ann_tags rs1).
 
 End Hist.
+
+(* ------------------------------------------------------------------ construction routes *)
+(* hed_schema_io.load_schema / from_string with the public parameters schema_namespace= and schema=: load the
+   file (or merge it into the object `into`, which is returned), then set the prefix ONLY when one was given *)
+Definition load_schema_pub (isa : N -> bool) (fixed : bool) (rp : repo) (f : sfile) (ns : str) (into : option lschema)
+  : lres lschema :=
+  lbind (load_file isa rp f into)
+    (fun L => match ns with
+              | [] => LOk L
+              | _ => match set_schema_prefix isa fixed ns with
+                     | Ok ns' => LOk (mkL ns' (l_library L) (l_version L) (l_with_std L) (l_merged L) (l_elem_domain L) (l_table L))
+                     | Exn _ => LErr INVALID_LIBRARY_PREFIX
+                     end
+              end).
+
